@@ -32,6 +32,9 @@ ODD_NAMES = ["admin", "Admin", "ADMIN", "user", "User", "\u00e9diteur", "editeur
              "10", "9", "r\u00f6le", "role", "role ", "z\u0301", "\u017a", "\uffff", "\U00010000", "\U0001f600", "", " ", "ab", "a-b", "aB"]
 
 
+NONTERM = "expand does not terminate (time budget exceeded)"
+
+
 class Timeout(Exception):
     pass
 
@@ -210,7 +213,9 @@ def process_jobs(jobs, max_keys: int = 10**9) -> dict:
         except Timeout:
             hist["impl-timeout"] = hist.get("impl-timeout", 0) + 1
             res["spec_failures"].append({"part": "resolver", "label": label, "graph": wire_graph(graph), "roles": cur,
-                                         "impl": "no answer within 5 s", "why": "expand does not terminate (budget exceeded)"})
+                                         "impl": "no answer within 5 s", "why": NONTERM})
+            res["aborted"] = True     # every further cyclic graph would cost the full budget: one witness is enough
+            break
         if items:
             cmds.append({"cmd": "roles-batch", "graph": wire_graph(graph), "items": items})
             metas.append((graph, label, items))
@@ -242,6 +247,8 @@ def merge(run: lib.Run, res: dict) -> None:
     for smp in res["samples"]:
         if len(run.samples) < 3:
             run.samples.append(smp)
+    if res.get("aborted"):
+        run.extra["aborted_on_timeout"] = True
     run.spec_failures.extend(res["spec_failures"][:50])
     run.disagreements.extend(res["disagreements"][:50])
 
@@ -278,7 +285,7 @@ def big_sweep(run: lib.Run) -> None:
     with mp.get_context("fork").Pool(min(6, max(1, (mp.cpu_count() or 2) - 2))) as pool:
         for res in pool.imap_unordered(sweep_worker, tasks):
             merge(run, res)
-            if len(run.spec_failures) > 200:
+            if len(run.spec_failures) > 200 or run.extra.get("aborted_on_timeout"):
                 pool.terminate()
                 break
 
@@ -312,7 +319,7 @@ def run_resolver_part(run: lib.Run, scale: int = 1) -> None:
     small = itertools.chain.from_iterable(sweep_jobs(n, 0, 1 << (n * n), VARIANTS, 3) for n in (1, 2, 3))
     for jobs in chunks(itertools.chain(small, order_jobs(), random_jobs(run, scale)), 4000):
         merge(run, process_jobs(jobs, 120_000))
-        if len(run.spec_failures) > 200:
+        if len(run.spec_failures) > 200 or run.extra.get("aborted_on_timeout"):
             return
     if run.tier != "quick" and not run.spec_failures:
         big_sweep(run)
@@ -512,7 +519,7 @@ def run_engine_batch(run: lib.Run, audit: dict, cases: list) -> None:
 def resolver_fails(graph_w: list, roles) -> bool:
     graph = {k: list(ps) for k, ps in graph_w}
     try:
-        with deadline(5.0):
+        with deadline(2.0):
             out = impl_expand(graph, roles)
     except Timeout:
         return True
@@ -578,6 +585,8 @@ def shrink(case: dict) -> dict:
 
 def run_all(run: lib.Run, audit: dict, scale: int = 1) -> None:
     run_resolver_part(run, scale)
+    if run.extra.get("aborted_on_timeout"):
+        return      # the engine part would wait for the same non-terminating call
     for batch in chunks(engine_cases(run, scale), 2000):
         run_engine_batch(run, audit, batch)
 
